@@ -75,7 +75,8 @@ func VerifC05Reassembly() {
 	for _, f := range fs {
 		want = append(want, f.body...)
 	}
-	coalesced := vrt_Choose("coalesced", 2) == 1
+	seg := vrt_Choose("segmentation", 3) // 0: one packet per read, 1: all coalesced, 2: every packet split over two reads
+	coalesced := seg == 1
 	r := vNewReader()
 	completes := 0
 	var complete vSnap
@@ -108,7 +109,15 @@ func VerifC05Reassembly() {
 				seen[it.num] = true
 			}
 			before := completes
-			msgs, err := r.read(it.f.bytes())
+			b := it.f.bytes()
+			if seg == 2 {
+				// the frame arrives in two reads (cut after the first byte, in the middle, or before the last byte)
+				at := []int{1, len(b) / 2, len(b) - 1}[vrt_Choose("splitAt", 3)]
+				part, err := r.read(b[:at])
+				vrt_Assert(err == nil && len(part) == 0, "half a packet must not produce a message or an error")
+				b = b[at:]
+			}
+			msgs, err := r.read(b)
 			vrt_Assert(err == nil, "valid packet reported as an error")
 			deliver(msgs, it.num, false)
 			if len(seen) == n && before == 0 && it.num > 0 {
@@ -122,6 +131,7 @@ func VerifC05Reassembly() {
 	vrt_Cover("out-of-order", n >= 3 && order[1] != 2)
 	vrt_Cover("duplicate", dup >= 1 && dup < n-1)
 	vrt_Cover("coalesced", coalesced)
+	vrt_Cover("split-packets", seg == 2)
 	vrt_Cover("separate-reads-escape-free", !coalesced && ksp == 0)
 }
 
